@@ -5,9 +5,12 @@ reference that sorts (-priority, registration sequence number) - a different alg
 """
 from mc.engine import hbfs
 from mc.engine.report import Violation
-from mc.engine.seams import Canon, reset_library, public_snapshot
+from mc.engine.seams import Canon, reset_library, public_snapshot, new_model
 
+import copy
+import itertools
 import logging
+import pickle
 
 import numpy as np
 
@@ -89,7 +92,7 @@ class Harness:
     def fresh(self):
         w = World()
         if self.logger_level is None:
-            w.model = Core.Model(seed=1)
+            w.model = new_model(seed=1)
         else:       # a caller-supplied logger at another level (the library's own logger is forced to INFO)
             lg = logging.getLogger(f'c01-{self.logger_level}')
             lg.setLevel(self.logger_level)
@@ -116,7 +119,7 @@ class Harness:
         w.seq = 0
         w.last = ()
         # a second model with systems of the same ids, stepped whenever the first one is: its order never changes
-        w.m2 = Core.Model(seed=2)
+        w.m2 = new_model(seed=2)
         w.log2 = []
         Rec2, _, _ = make_recorder(w.log2)
         for key, prio in (('a', 0), ('c', 1), ('b', 0), ('k', -1)):
@@ -189,6 +192,15 @@ class Harness:
             if got != exp:
                 raise Violation('execution order differs from (descending priority, registration order)',
                                 expected=list(exp), observed=list(got))
+            # a copy of the model inherits the registration history: its systems (copies that write to the same log)
+            # run in the same order
+            clone = copy.deepcopy(w.model)
+            del w.log[:]
+            clone.execute()
+            if tuple(w.log) != exp:
+                raise Violation('a deep copy of the model runs its systems in another order than (descending priority, '
+                                'registration order of the model it was copied from)', expected=list(exp),
+                                observed=list(w.log))
         else:
             raise ValueError(op)
 
@@ -230,7 +242,7 @@ def churn_case(case):
     """Short-lived system objects: a colliding object is rejected and dropped, then a NEW object (which may get the
     dropped one's address) is registered under a free id with another priority; the order is judged every round."""
     reset_library()
-    m = Core.Model(seed=1)
+    m = new_model(seed=1)
     log = []
     Rec, _, _ = make_recorder(log)
     base = [Rec('a', 'a', m, 0), Rec('c', 'c', m, 2), Rec('d', 'd', m, -2)]
@@ -251,8 +263,6 @@ def churn_case(case):
         m.systems.add_system(new)
         del log[:]
         m.execute()
-        exp = [k for _, k in sorted([(0, 'a'), (-2, 'c'), (2, 'd'), (-prio, 'new')])]
-        exp = [k for k in ('c', 'a', 'd') ]
         order = sorted([('a', 0, 0), ('c', 2, 1), ('d', -2, 2), ('new', prio, 3)], key=lambda t: (-t[1], t[2]))
         exp = [t[0] for t in order]
         if log != exp:
@@ -264,12 +274,65 @@ def churn_case(case):
     return n
 
 
+class PRec(Core.System):
+    """Module-level (hence picklable) recorder; the log is class state shared by originals and clones."""
+    LOG = []
+
+    def execute(self):
+        PRec.LOG.append(self.id)
+
+
+def clone_cases():
+    # every registration history of up to 4 systems with priorities from {0, 1}, optionally with the first one
+    # removed and registered again at the end
+    for n in (2, 3, 4):
+        for prios in itertools.product((0, 1), repeat=n):
+            for readd in (False, True):
+                yield {'leg': 'clone', 'prios': list(prios), 'readd': readd}
+
+
+def clone_case(case):
+    """The model is copied (copy.deepcopy) and pickled/unpickled after its history; each clone runs in the order the
+    history prescribes and keeps doing so when the history goes on in the clone."""
+    reset_library()
+    m = new_model(seed=1)
+    ref = []
+    for i, p in enumerate(case['prios']):
+        m.systems.add_system(PRec(f's{i}', m, priority=p))
+        ref.append((p, f's{i}'))
+    if case['readd']:
+        first = m.systems['s0']
+        m.systems.remove_system('s0')
+        m.systems.add_system(first)
+        ref.append(ref.pop(0))
+
+    def order(r):
+        return [sid for _, sid in sorted(r, key=lambda e: -e[0])]      # stable: registration order among equals
+    n = 0
+    clones = [('deepcopy', copy.deepcopy(m)), ('pickle', pickle.loads(pickle.dumps(m))),
+              ('deepcopy of unpickled', copy.deepcopy(pickle.loads(pickle.dumps(m)))), ('original', m)]
+    for how, c in clones:
+        r = list(ref)
+        for extra in (None, ('n0', 0), ('n1', 1)):
+            if extra is not None:
+                c.systems.add_system(PRec(extra[0], c, priority=extra[1]))
+                r.append((extra[1], extra[0]))
+            del PRec.LOG[:]
+            c.execute()
+            n += 1
+            if PRec.LOG != order(r):
+                raise Violation(f'{how} of a model with registration history {case}: execution order'
+                                f'{" after registering " + extra[0] if extra else ""}', expected=order(r),
+                                observed=list(PRec.LOG))
+    return n
+
+
 def long_history(case):
     """One deep history: a transient system is registered and removed n times, then the order of a small set is judged.
     (Exhaustive exploration cannot reach counters that need a million registrations; this single path does.)"""
     reset_library()
     n = case['cycles']
-    m = Core.Model(seed=1)
+    m = new_model(seed=1)
     log = []
     Rec, _, _ = make_recorder(log)
     keep = Rec('k5', 'k5', m, 5)
@@ -288,6 +351,10 @@ def long_history(case):
     return tuple(log)
 
 
+# the cheap legs run once more under the runner's ambient configurations (python -O, other logger levels)
+AMBIENT_LEGS = True
+
+
 def run(ctx):
     # cheap single-history legs first (a change that introduces unbounded hidden state makes the BFS legs slow)
     for case in ({'leg': 'churn', 'rounds': 200},):
@@ -297,7 +364,7 @@ def run(ctx):
         except Violation as v:
             ctx.report(case, v)
             return
-    for cycles in ((70000,) if ctx.tier == 'quick' else (70000, 2 ** 20 + 16)):
+    for cycles in ((1000,) if ctx.small else (70000,) if ctx.tier == 'quick' else (70000, 2 ** 20 + 16)):
         case = {'leg': 'long_history', 'cycles': cycles}
         ctx.traces += 1
         ctx.transitions += 2 * cycles
@@ -308,6 +375,22 @@ def run(ctx):
             return
     ctx.leg('long_history', note='single deep histories of 70 000 (thorough: 2^20+16) register/remove cycles; churn of '
                                  '200 short-lived colliding / new system objects')
+    nc = 0
+    for case in clone_cases():
+        ctx.traces += 1
+        nc += 1
+        try:
+            ctx.transitions += hbfs._guard(clone_case, case)
+        except Violation as v:
+            ctx.report(case, v)
+            return
+    ctx.leg('clone', histories=nc, note='deepcopy / pickle round trip of the model after every registration history of '
+                                        '<= 4 systems; every BFS step also runs a deep copy')
+    if ctx.small:
+        hs = Harness([('b', 'b', 0), ('a', 'a', 0), ('c', 'c', 1), ('k', 'k', None), ('a2', 'a', 1)])
+        r = hbfs.explore(ctx, hs, 'small_pool', max_depth=40, procs=ctx.procs)
+        ctx.leg('small_pool', **r)
+        return
     h = Harness(QUICK_POOL)
     r = hbfs.explore(ctx, h, 'quick_pool', max_depth=40, procs=ctx.procs)
     ctx.leg('quick_pool', **r)
@@ -353,6 +436,9 @@ def replay(case):
         return
     if case['leg'] == 'churn':
         hbfs._guard(churn_case, case)
+        return
+    if case['leg'] == 'clone':
+        hbfs._guard(clone_case, case)
         return
     h = Harness(case['config']['pool'], case['config'].get('logger_level'), case['config'].get('aliases', False))
     hbfs.replay_case(h, case)
